@@ -302,11 +302,23 @@ def linearize_measure_contents(part, start, end, state):
 
     splits.append(end)
     contents = []
+    # running position in the written element stream, and the furthest
+    # position reached so far (a reader takes the latter as the end of the
+    # measure)
+    pos = start.t
+    max_pos = start.t
 
     for i in range(1, len(splits)):
-        contents.extend(
-            linearize_segment_contents(part, splits[i - 1], splits[i], state)
+        segment, pos, seg_max = linearize_segment_contents(
+            part, splits[i - 1], splits[i], state, pos
         )
+        contents.extend(segment)
+        max_pos = max(max_pos, seg_max)
+
+    if max_pos < end.t:
+        # the contents do not reach the end of the measure: make the written
+        # measure as long as the measure itself
+        contents.extend(e for _, _, e in forward_backup_if_needed(end.t, pos)[0])
 
     return contents
 
@@ -412,11 +424,15 @@ def remove_voice_polyphony(notes_by_voice):
 #                 part.add(rest, note.end.t, end.t)
 
 
-def linearize_segment_contents(part, start, end, state):
+def linearize_segment_contents(part, start, end, state, pos=None):
     """
     Determine the document order of events starting between `start` (inclusive)
     and `end` (exlusive).
     (notes, directions, divisions, time signatures).
+
+    `pos` is the position in the written element stream at which the segment
+    begins (by default `start.t`). Returns the contents, the position after the
+    last element, and the furthest position reached.
     """
 
     notes = part.iter_all(
@@ -488,9 +504,9 @@ def linearize_segment_contents(part, start, end, state):
 
     other_e = harmony_e + attributes_e + directions_e + barline_e + prints_e
 
-    contents = merge_measure_contents(voices_e, other_e, start.t)
-
-    return contents
+    return merge_measure_contents(
+        voices_e, other_e, start.t if pos is None else pos
+    )
 
 
 def do_prints(part, start, end):
@@ -656,21 +672,16 @@ def merge_with_voice(notes, other, measure_start):
 
 
 def merge_measure_contents(notes, other, measure_start):
-    merged = {}
-    # cost (measured as the total forward/backup jumps needed to merge) all
-    # elements in `other` into each voice
-    cost = {}
+    """
+    Concatenate the voices into one element stream that starts at position
+    `measure_start`. The non-note elements are merged into the first voice
+    (see the CHANGE note below); every voice is written with the
+    forward/backup elements needed to reach the onset of each of its elements
+    from the current position.
 
-    for voice in sorted(notes.keys()):
-        # merge `other` with each voice, and keep track of the cost
-        merged[voice], cost[voice] = merge_with_voice(
-            notes[voice], other, measure_start
-        )
-
-    if not merged:
-        merged[0] = []
-        cost[0] = 0
-
+    Returns the stream, the position after its last element, and the furthest
+    position reached.
+    """
     # CHANGE: disabled cost-based merging of non-note elements into stream
     # because this led to attributes not being in the beginning of the measure,
     # which in turn led to problems with musescore
@@ -679,27 +690,24 @@ def merge_measure_contents(notes, other, measure_start):
     # was just cosmetic to avoid too many forwards and backwards.
     # related issue: https://github.com/CPJKU/partitura/issues/390
 
-    # get the voice for which merging notes and other has lowest cost
-    # merge_voice = sorted(cost.items(), key=itemgetter(1))[0][0]
     result = []
     pos = measure_start
+    max_pos = measure_start
     for i, voice in enumerate(sorted(notes.keys())):
-        if i == 0:  # voice == merge_voice:
-            elements = merged[voice]
-
-        else:
-            # the other voices contain notes only; like the first voice they
-            # need a forward wherever there is a gap between two notes (and a
-            # backup/forward to reach the first note when switching voices)
-            elements, _ = merge_with_voice(notes[voice], [], pos)
-
+        # backup/forward when switching voices and over gaps inside a voice
+        elements, _ = merge_with_voice(
+            notes[voice], other if i == 0 else [], pos
+        )
         result.extend([e for _, _, e in elements])
 
         # update current position
         if elements:
             pos = elements[-1][0] + (elements[-1][1] or 0)
+            max_pos = max(
+                max_pos, max(onset + max(dur or 0, 0) for onset, dur, _ in elements)
+            )
 
-    return result
+    return result, pos, max_pos
 
 
 def do_directions(part, start, end, counter):
